@@ -111,6 +111,260 @@ theorem write_lutSafe {F : Flags} {st : State} (hl : LutSafe F st) (m : Metric) 
     · exact hl.small hc e (mem_fwd_all.mpr (Or.inr (Or.inl (by simpa [c] using he))))
     · exact hl.small hc e (mem_fwd_all.mpr (Or.inr (Or.inr ⟨f, by simpa [Fwd.files, a, b] using hf, he⟩)))
 
+/-! ### the flush phases along a history -/
+
+theorem addTag_phase_frame (st : State) (m : Metric) (sid : SeriesId) (kv : Bytes × Bytes) :
+    (addTag st m sid kv).inv.imm = st.inv.imm ∧ (addTag st m sid kv).inv.l0 = st.inv.l0 ∧
+    (addTag st m sid kv).inv.l1 = st.inv.l1 ∧ (addTag st m sid kv).inv.phase = st.inv.phase ∧
+    (addTag st m sid kv).fwd.phase = st.fwd.phase := by
+  rw [addTag_eq]
+  have h1 := genTagKeyID_frame st m kv.1
+  have h2 := genTagValueID_frame (genTagKeyID st m kv.1).1 (genTagKeyID st m kv.1).2 kv.2
+  refine ⟨?_, ?_, ?_, ?_, ?_⟩ <;> simp [indexTag, h2.2.2.1, h2.2.2.2.1, h1.2.1, h1.2.2.1]
+
+theorem foldl_addTag_phase_frame (m : Metric) (sid : SeriesId) (tags : Tags) (st : State) :
+    (tags.foldl (fun s kv => addTag s m sid kv) st).inv.imm = st.inv.imm ∧
+    (tags.foldl (fun s kv => addTag s m sid kv) st).inv.l0 = st.inv.l0 ∧
+    (tags.foldl (fun s kv => addTag s m sid kv) st).inv.l1 = st.inv.l1 ∧
+    (tags.foldl (fun s kv => addTag s m sid kv) st).inv.phase = st.inv.phase ∧
+    (tags.foldl (fun s kv => addTag s m sid kv) st).fwd.phase = st.fwd.phase := by
+  induction tags generalizing st with
+  | nil => exact ⟨rfl, rfl, rfl, rfl, rfl⟩
+  | cons kv t ih =>
+    obtain ⟨a1, b1, c1, d1, e1⟩ := addTag_phase_frame st m sid kv
+    obtain ⟨a2, b2, c2, d2, e2⟩ := ih (addTag st m sid kv)
+    simp only [List.foldl_cons]
+    exact ⟨a2.trans a1, b2.trans b1, c2.trans c1, d2.trans d1, e2.trans e1⟩
+
+theorem write_phase_frame (st : State) (m : Metric) (tags : Tags) :
+    (write st m tags).1.inv.imm = st.inv.imm ∧ (write st m tags).1.inv.l0 = st.inv.l0 ∧
+    (write st m tags).1.inv.l1 = st.inv.l1 ∧ (write st m tags).1.inv.phase = st.inv.phase ∧
+    (write st m tags).1.fwd.phase = st.fwd.phase := by
+  unfold write
+  cases Map.lookup st.series (m, tags) with
+  | some sid => exact ⟨rfl, rfl, rfl, rfl, rfl⟩
+  | none => exact foldl_addTag_phase_frame m (nextSeriesId st m) tags _
+
+theorem phaseOK_init : PhaseOK State.init := by
+  constructor <;> intro h <;> exact absurd rfl h
+
+/-- writes go to the mutable tables only: a flush in progress keeps its batch -/
+theorem write_phaseOK {st : State} (hp : PhaseOK st) (m : Metric) (tags : Tags) : PhaseOK (write st m tags).1 := by
+  obtain ⟨a, b, c, d, e⟩ := write_phase_frame st m tags
+  obtain ⟨fa, fb, fc, _⟩ := write_fwd st m tags
+  constructor
+  · rw [d, a]
+    simpa [Inv.files, b, c] using hp.inv
+  · rw [e, fc]
+    simpa [Fwd.files, fa, fb] using hp.fwd
+
+theorem inv_prepare_busy {d : Inv} (b : Bool) (p : InvPart) (h1 : d.imm = some p) (h2 : p ≠ []) : d.prepare b = d := by
+  unfold Inv.prepare
+  cases p with
+  | nil => exact absurd rfl h2
+  | cons x t => simp [h1]
+
+theorem fwd_prepare_busy {d : Fwd} (b : Bool) (p : FwdPart) (h1 : d.imm = some p) (h2 : p ≠ []) : d.prepare b = d := by
+  unfold Fwd.prepare
+  cases p with
+  | nil => exact absurd rfl h2
+  | cons x t => simp [h1]
+
+theorem inv_prepare_phase (d : Inv) (b : Bool) : (d.prepare b).phase = d.phase := by
+  unfold Inv.prepare
+  cases d.imm with
+  | none => rfl
+  | some p => cases p with
+    | nil => cases b <;> rfl
+    | cons x t => rfl
+
+theorem fwd_prepare_phase (d : Fwd) (b : Bool) : (d.prepare b).phase = d.phase := by
+  unfold Fwd.prepare
+  cases d.imm with
+  | none => rfl
+  | some p => cases p with
+    | nil => cases b <;> rfl
+    | cons x t => rfl
+
+theorem inv_flush_phase (d : Inv) : d.flush.phase = .idle ∨ d.flush = d := by
+  unfold Inv.flush
+  by_cases h : d.phase = .idle
+  · left
+    simp only [h, ne_eq, not_true_eq_false, ite_false]
+    unfold Inv.flushNow
+    cases d.imm with
+    | none => exact h
+    | some p => cases p <;> exact h
+  · right; simp [h]
+
+theorem fwd_flush_phase (d : Fwd) : d.flush.phase = .idle ∨ d.flush = d := by
+  unfold Fwd.flush
+  by_cases h : d.phase = .idle
+  · left
+    simp only [h, ne_eq, not_true_eq_false, ite_false]
+    unfold Fwd.flushNow
+    cases d.imm with
+    | none => exact h
+    | some p => cases p <;> exact h
+  · right; simp [h]
+
+/-- every placement step keeps `PhaseOK` -/
+theorem step_phaseOK {F : Flags} {st : State} (hl : LutSafe F st) (hp : PhaseOK st) (s : Step) :
+    PhaseOK (st.step F s) := by
+  cases s with
+  | prepareMeta => exact ⟨hp.inv, hp.fwd⟩
+  | flushMeta => exact ⟨hp.inv, hp.fwd⟩
+  | compactMeta => exact ⟨hp.inv, hp.fwd⟩
+  | prepareIndex =>
+    constructor
+    · intro h
+      simp only [State.step] at h ⊢
+      rw [inv_prepare_phase] at h
+      obtain ⟨p, h1, h2, h3⟩ := hp.inv h
+      rw [inv_prepare_busy _ p h1 h2]
+      exact ⟨p, h1, h2, h3⟩
+    · intro h
+      simp only [State.step] at h ⊢
+      rw [fwd_prepare_phase] at h
+      obtain ⟨p, h1, h2, h3⟩ := hp.fwd h
+      rw [fwd_prepare_busy _ p h1 h2]
+      exact ⟨p, h1, h2, h3⟩
+  | flushIndex =>
+    constructor
+    · intro h
+      simp only [State.step] at h ⊢
+      rcases inv_flush_phase st.inv with h1 | h1
+      · exact absurd h1 h
+      · rw [h1] at h ⊢; exact hp.inv h
+    · intro h
+      simp only [State.step] at h ⊢
+      rcases fwd_flush_phase st.fwd with h1 | h1
+      · exact absurd h1 h
+      · rw [h1] at h ⊢; exact hp.fwd h
+  | compactIndex =>
+    constructor
+    · intro h
+      have hph : (st.inv.compact).phase = st.inv.phase := by unfold Inv.compact; split <;> rfl
+      have him : (st.inv.compact).imm = st.inv.imm := by unfold Inv.compact; split <;> rfl
+      simp only [State.step] at h ⊢
+      rw [hph] at h
+      obtain ⟨p, h1, h2, h3⟩ := hp.inv h
+      refine ⟨p, him.trans h1, h2, ?_⟩
+      intro hc e he
+      have := h3 (hph ▸ hc) e he
+      unfold Inv.compact
+      split
+      · simpa [Inv.files] using this
+      · exact this
+    · intro h
+      have hph : (st.fwd.compact F.lutCumulative).phase = st.fwd.phase := by unfold Fwd.compact; split <;> rfl
+      have him : (st.fwd.compact F.lutCumulative).imm = st.fwd.imm := by unfold Fwd.compact; split <;> rfl
+      simp only [State.step] at h ⊢
+      rw [hph] at h
+      obtain ⟨p, h1, h2, h3⟩ := hp.fwd h
+      refine ⟨p, him.trans h1, h2, ?_⟩
+      intro hc e he
+      obtain ⟨f, hf, hef⟩ := h3 (hph ▸ hc) e he
+      unfold Fwd.compact
+      split
+      · refine ⟨mergeFwdFiles F.lutCumulative (st.fwd.l0 ++ st.fwd.l1), by simp [Fwd.files], ?_⟩
+        have hok' : ∀ f ∈ st.fwd.l0 ++ st.fwd.l1, FileOK F.lutCumulative f := hl.files
+        rw [mem_mergeFwdFiles hok']
+        exact ⟨f, hf, hef⟩
+      · exact ⟨f, hf, hef⟩
+  | fwdWrite =>
+    refine ⟨hp.inv, ?_⟩
+    intro h
+    simp only [State.step, Fwd.flushWrite] at h ⊢
+    by_cases hi : st.fwd.phase = .idle
+    · simp only [hi, ne_eq, not_true_eq_false, ite_false] at h ⊢
+      cases him : st.fwd.imm with
+      | none => simp [him, hi] at h
+      | some p =>
+        cases p with
+        | nil => simp [him, hi] at h
+        | cons x t =>
+          simp only [him]
+          exact ⟨x :: t, rfl, by simp, fun hc => by cases hc⟩
+    · simp only [hi, ne_eq, not_false_eq_true, ite_true] at h ⊢
+      exact hp.fwd hi
+  | fwdFail =>
+    refine ⟨hp.inv, ?_⟩
+    intro h
+    simp only [State.step, Fwd.flushFail] at h ⊢
+    split at h
+    · exact absurd rfl h
+    · rename_i hw
+      rw [if_neg hw]
+      exact hp.fwd h
+  | fwdCommit =>
+    refine ⟨hp.inv, ?_⟩
+    intro h
+    simp only [State.step, Fwd.flushCommit] at h ⊢
+    by_cases hw : st.fwd.phase = .writing
+    · obtain ⟨p, h1, h2, _⟩ := hp.fwd (by rw [hw]; decide)
+      simp only [hw, ite_true, h1]
+      refine ⟨p, rfl, h2, ?_⟩
+      intro _ e he
+      exact ⟨buildFwdFile p, by simp [Fwd.files], mem_buildFwdFile.mpr he⟩
+    · simp only [hw, ite_false] at h ⊢
+      exact hp.fwd h
+  | fwdDrop =>
+    refine ⟨hp.inv, ?_⟩
+    intro h
+    simp only [State.step, Fwd.flushDrop] at h ⊢
+    split at h
+    · exact absurd rfl h
+    · rename_i hw
+      rw [if_neg hw]
+      exact hp.fwd h
+  | invWrite =>
+    refine ⟨?_, hp.fwd⟩
+    intro h
+    simp only [State.step, Inv.flushWrite] at h ⊢
+    by_cases hi : st.inv.phase = .idle
+    · simp only [hi, ne_eq, not_true_eq_false, ite_false] at h ⊢
+      cases him : st.inv.imm with
+      | none => simp [him, hi] at h
+      | some p =>
+        cases p with
+        | nil => simp [him, hi] at h
+        | cons x t =>
+          simp only [him]
+          exact ⟨x :: t, rfl, by simp, fun hc => by cases hc⟩
+    · simp only [hi, ne_eq, not_false_eq_true, ite_true] at h ⊢
+      exact hp.inv hi
+  | invFail =>
+    refine ⟨?_, hp.fwd⟩
+    intro h
+    simp only [State.step, Inv.flushFail] at h ⊢
+    split at h
+    · exact absurd rfl h
+    · rename_i hw
+      rw [if_neg hw]
+      exact hp.inv h
+  | invCommit =>
+    refine ⟨?_, hp.fwd⟩
+    intro h
+    simp only [State.step, Inv.flushCommit] at h ⊢
+    by_cases hw : st.inv.phase = .writing
+    · obtain ⟨p, h1, h2, _⟩ := hp.inv (by rw [hw]; decide)
+      simp only [hw, ite_true, h1]
+      refine ⟨p, rfl, h2, ?_⟩
+      intro _ e he
+      simp [Inv.files, he]
+    · simp only [hw, ite_false] at h ⊢
+      exact hp.inv h
+  | invDrop =>
+    refine ⟨?_, hp.fwd⟩
+    intro h
+    simp only [State.step, Inv.flushDrop] at h ⊢
+    split at h
+    · exact absurd rfl h
+    · rename_i hw
+      rw [if_neg hw]
+      exact hp.inv h
+
 /-! ### histories -/
 
 def numWrites : List Op → Nat
@@ -125,10 +379,11 @@ def ValidOps (ops : List Op) : Prop := ∀ m t, Op.write m t ∈ ops → (t.map 
 structure Reach (F : Flags) (n : Nat) (st : State) : Prop where
   good : Good st
   lut : LutSafe F st
+  phase : PhaseOK st
   count : st.series.length ≤ n
 
 theorem reach_init (F : Flags) : Reach F 0 State.init := by
-  refine ⟨good_init, ⟨?_, ?_⟩, by simp [State.init]⟩
+  refine ⟨good_init, ⟨?_, ?_⟩, phaseOK_init, by simp [State.init]⟩
   · intro f hf; simp [State.init, Fwd.files] at hf
   · intro _ e he; simp [State.init, Fwd.all, Fwd.files, optList] at he
 
@@ -143,7 +398,7 @@ theorem run_reach {F : Flags} (ops : List Op) {n : Nat} {st : State} (h : Reach 
     | write m tags =>
       have hnd := hv m tags List.mem_cons_self
       have h1 : Reach F (n + 1) (write st m tags).1 := by
-        refine ⟨(write_spec h.good m tags hnd).1, write_lutSafe h.lut m tags ?_, ?_⟩
+        refine ⟨(write_spec h.good m tags hnd).1, write_lutSafe h.lut m tags ?_, write_phaseOK h.phase m tags, ?_⟩
         · intro hc
           rcases hb with hb | hb
           · rw [hb] at hc; cases hc
@@ -161,8 +416,9 @@ theorem run_reach {F : Flags} (ops : List Op) {n : Nat} {st : State} (h : Reach 
       have e : n + (numWrites r + 1) = n + 1 + numWrites r := by omega
       rw [e]; exact this
     | place s =>
-      have h1 : Reach F n (st.step F s) := ⟨step_good h.good h.lut s, step_lutSafe h.lut s, by
-        cases s <;> exact h.count⟩
+      have h1 : Reach F n (st.step F s) :=
+        ⟨step_good h.good h.lut h.phase s, step_lutSafe h.lut h.phase s, step_phaseOK h.lut h.phase s, by
+          cases s <;> exact h.count⟩
       have := ih h1 hvr (by simpa [numWrites] using hb)
       simpa [run, applyOp, numWrites] using this
 
